@@ -37,7 +37,7 @@ impl Iterator for Bytes {
     }
 
     fn size_hint(&self) -> (usize, Option<usize>) {
-        let remaining = self.input.len() - self.index;
+        let remaining = self.input.len().saturating_sub(self.index);
         (remaining, Some(remaining))
     }
 }
@@ -79,7 +79,7 @@ impl Iterator for CharIndices {
     }
 
     fn size_hint(&self) -> (usize, Option<usize>) {
-        let remaining = self.input.len() - self.index;
+        let remaining = self.input.len().saturating_sub(self.index);
         (remaining, Some(remaining))
     }
 }
@@ -138,7 +138,7 @@ impl Iterator for Lines {
     }
 
     fn size_hint(&self) -> (usize, Option<usize>) {
-        let remaining_bytes = self.input.len() - self.start;
+        let remaining_bytes = self.input.len().saturating_sub(self.start);
         (1.min(remaining_bytes), Some(remaining_bytes))
     }
 }
@@ -188,7 +188,7 @@ impl Iterator for Split {
     }
 
     fn size_hint(&self) -> (usize, Option<usize>) {
-        let remaining_bytes = self.input.len() - self.start;
+        let remaining_bytes = self.input.len().saturating_sub(self.start);
         (1.min(remaining_bytes), Some(remaining_bytes))
     }
 }
@@ -282,7 +282,7 @@ impl Iterator for SplitWith {
     }
 
     fn size_hint(&self) -> (usize, Option<usize>) {
-        let remaining_bytes = self.input.len() - self.start;
+        let remaining_bytes = self.input.len().saturating_sub(self.start);
         (1.min(remaining_bytes), Some(remaining_bytes))
     }
 }
